@@ -129,6 +129,19 @@ func (h *H) partition(n int, kind int) []int {
 				parts = append(parts, k)
 			}
 		}
+	case 9:
+		// at most ~40 pieces: CChunkSize mode re-compresses the pending bytes on
+		// every Write, so many small writes of a large compressible payload cost
+		// quadratic time in the implementation itself
+		m := n/h.rng.Range(1, 40) + 1
+		for i := 0; i < n; {
+			k := h.rng.Range(m/2, m)
+			if i+k > n {
+				k = n - i
+			}
+			parts = append(parts, k)
+			i += k
+		}
 	default:
 		m := []int{3, 16, 100, 1000, 5000, 70000}[h.rng.Intn(6)]
 		for i := 0; i < n; {
@@ -755,7 +768,7 @@ type wcfg struct {
 }
 
 func (c wcfg) opLine() string {
-	rs := "-"
+	rs := "none"
 	if len(c.res) > 0 {
 		var parts []string
 		for _, x := range c.res {
@@ -964,10 +977,22 @@ func (h *H) writerRuns(n int) {
 		if size > 5000 && kind >= 1 && kind <= 3 {
 			kind = 4
 		}
+		parts := h.partition(size, kind)
+		// The list-based Lean model copies the pending bytes on every Write (and the
+		// implementation re-compresses them in CChunkSize mode): bound writes x pending.
+		pending := size
+		if c.dchunk > 0 && int(c.dchunk) < pending {
+			pending = int(c.dchunk)
+		} else if c.cchunk == 0 && c.dchunk == 0 && pending > 65536 {
+			pending = 65536
+		}
+		if len(parts)*pending > 3_000_000 {
+			parts = h.partition(size, 9)
+		}
 		if h.rng.Chance(1, 4) {
 			c.failAt = h.rng.Range(1, 60)
 		}
-		h.writerRun(c, payload, h.partition(size, kind))
+		h.writerRun(c, payload, parts)
 	}
 	// every fault position k <= 50 of fixed runs (one per index location / sizing mode)
 	base := h.payload(300, 2, 16)
@@ -991,10 +1016,10 @@ func (h *H) writerRuns(n int) {
 		c.failAt, c.nilw, c.cancut, c.cps = 0, false, true, 4096
 		c.cchunk, c.dchunk = 4096, 0
 		c.loc, c.tempKind = 1, 2
-		h.writerRun(c, h.payload(sz, 5, 4096), h.partition(sz, 4))
+		h.writerRun(c, h.payload(sz, 5, 4096), h.partition(sz, 9))
 		c.cchunk, c.dchunk = 0, 0
 		c.loc, c.tempKind = 0, 0
-		h.writerRun(c, h.payload(sz, 2, 65536), h.partition(sz, 4))
+		h.writerRun(c, h.payload(sz, 2, 65536), h.partition(sz, 9))
 	}
 }
 
@@ -1029,6 +1054,7 @@ type realCase struct {
 	fails   [][3]string
 	closeOK bool
 	counts  []string
+	notes   []string
 }
 
 func (c *realCase) describe() string {
@@ -1111,7 +1137,10 @@ func (c *realCase) run(scratch string, idx int) {
 	c.counts = append(c.counts, "real:"+rc.name+":"+mode+":close="+errWord(err))
 	if err != nil {
 		if c.failAt == 0 && !(mode == "cchunk" && !rc.canCut) && errWord(err) != "cchunksize-too-small" {
-			c.fail("real:unexpected-error:"+rc.name, "Close fails without an injected fault: "+err.Error())
+			// not a C13 violation (the failure is reported), but worth a note: e.g. an
+			// internal self-check of lib/flatecut (property C16) firing
+			c.counts = append(c.counts, "real:error-without-fault:"+rc.name+":"+strings.ReplaceAll(err.Error(), " ", "_"))
+			c.notes = append(c.notes, "Close fails without an injected fault: "+err.Error()+"\n"+c.describe())
 		}
 		return
 	}
@@ -1199,6 +1228,9 @@ func (h *H) realRuns(n int) {
 		if size > 3000 && kind >= 1 && kind <= 3 {
 			kind = 4
 		}
+		if size > 3000 && c.cchunk > 0 && c.dchunk == 0 {
+			kind = 9
+		}
 		c.parts = h.partition(size, kind)
 		for k := h.rng.Intn(4); k > 0 && h.rng.Chance(1, 2); k-- {
 			lo := 0
@@ -1244,6 +1276,12 @@ func (h *H) realRuns(n int) {
 		for _, f := range c.fails {
 			h.r.Fail(f[0], f[1], f[2])
 		}
+		for _, n := range c.notes {
+			if len(n) > 3000 {
+				n = n[:3000] + "…"
+			}
+			h.r.Note(n)
+		}
 		if c.closeOK {
 			// the Lean Spec reader must reach the same verdict as the Go walker on the real file
 			h.r.Op("spec "+hlib.Hex(c.file), sVerdict(c.file))
@@ -1277,13 +1315,22 @@ func main() {
 	if r.Thorough {
 		scale = 12
 	}
-	h.corpus()
-	h.smallFuncs()
-	h.wbufOps(6000 * scale)
-	h.gatherOps(150 * scale)
-	h.cwRuns(120 * scale)
-	h.writerRuns(700 * scale)
-	h.realRuns(260 * scale)
+	t0 := time.Now()
+	section := func(name string, f func()) {
+		if only := os.Getenv("C13_ONLY"); only != "" && only != name {
+			return
+		}
+		f()
+		r.Extra("wall_"+name, time.Since(t0).Seconds())
+		t0 = time.Now()
+	}
+	section("corpus", h.corpus)
+	section("small", h.smallFuncs)
+	section("wbuf", func() { h.wbufOps(6000 * scale) })
+	section("gather", func() { h.gatherOps(150 * scale) })
+	section("cw", func() { h.cwRuns(120 * scale) })
+	section("writer", func() { h.writerRuns(700 * scale) })
+	section("real", func() { h.realRuns(200 * scale) })
 	r.Finish("cases: writeBuffer states over {0,1,2,3}-bytes; leaf lists at the arity thresholds (84..86, 254..257, 509..511, 65025..65281); " +
 		"ChunkWriter op sequences (resources, zero-size/invalid/mixed-codec chunks, both index locations, page sizes 0/2/4/8/128/4096, temp-file kinds, fault at call k); " +
 		"rac.Writer runs with the harness codec (CChunkSize 1..300 forcing Cut, DChunkSize 1..1000, default; payload styles all-zero/random/zero-runs/zero-runs at chunk boundaries/text/sparse, 0..300 KiB; write partitions whole/1/2/7/random/with empty writes; resources 0..3; faults at every call k<=50 and random later) " +
